@@ -5,6 +5,7 @@ import Cirbo.Proofs.GenKara
 import Cirbo.Proofs.GenSquare
 import Cirbo.Proofs.GenWallace
 import Cirbo.Proofs.GenMulWidth
+import Cirbo.Proofs.GenWallaceWidth
 /-!
 # C08 — Multiplier and squarer generators compute exact products
 
@@ -22,7 +23,8 @@ import Cirbo.Proofs.GenMulWidth
 -- OBLIGATION: c08_square_pow2_m1
 -- OBLIGATION: c08_mul_wallace
 -- OBLIGATION: c08_mul_default_width
--- PARTIAL: proved: the frame theorem for every mode (all are Prog programs), the partial-product matrix (sum_i 2^i*row_i = a*b), add_mul_alter = a*b exactly (positional), add_mul (DEFAULT) = a*b exactly (positional: on gapless weights the weighted sum returns the levels 0,1,2,... in order); and its result width n+m (n+m-1 when one operand has one bit) — c08_mul_default_width: the XAIG weighted loop outputs exactly the levels its level profile predicts (Proofs/GenShape.lean, exact per-level shape from the cost analysis) and for the partial-product profile the carries stay between 1 and the previous level's height (Proofs/GenMulWidth.lean); add_mul_dadda = a*b exactly with its result width (all reduction stages, any operand widths, both endiannesses). both Karatsuba variants (add_mul_karatsuba_with_efficient_sum = MulMode.KARATSUBA, and add_mul_karatsuba over add_mul_pow2_m1) = a*b exactly with their result width, by induction over the recursion (every threshold, operands of different widths, zero padding, the subtraction never borrows); add_mul_pow2_m1 = a*b exactly with its width (column-loop invariant over add_sum_pow2_m1, anti-diagonal re-summation of the partial-product matrix). both squarers (add_square_pow2_m1: the AND triangle built by the nested loops, the square as a sum over anti-diagonals; add_square: induction over the recursive split x = a + 2^mid*b) = x^2 exactly on 2n bits. add_mul_wallace = a*b exactly (Proofs/GenWallace.lean: the matrix with placeholder strings stands for Σ 2^col·(non-placeholder bits); every round keeps that number modulo 2^(n+m) — per-cell accounting over groups of three rows, carries out of the top column dropped; the two remaining rows are read as numbers with the gap logic; every label a run draws is "new_…", hence different from the placeholder — a second semantics SemF carries this along the same path). Not proved: the result widths of DEFAULT and Wallace (checked on the real generators on every run).
+-- OBLIGATION: c08_mul_wallace_width
+-- PARTIAL: proved: the frame theorem for every mode (all are Prog programs), the partial-product matrix (sum_i 2^i*row_i = a*b), add_mul_alter = a*b exactly (positional), add_mul (DEFAULT) = a*b exactly (positional: on gapless weights the weighted sum returns the levels 0,1,2,... in order); and its result width n+m (n+m-1 when one operand has one bit) — c08_mul_default_width: the XAIG weighted loop outputs exactly the levels its level profile predicts (Proofs/GenShape.lean, exact per-level shape from the cost analysis) and for the partial-product profile the carries stay between 1 and the previous level's height (Proofs/GenMulWidth.lean); add_mul_dadda = a*b exactly with its result width (all reduction stages, any operand widths, both endiannesses). both Karatsuba variants (add_mul_karatsuba_with_efficient_sum = MulMode.KARATSUBA, and add_mul_karatsuba over add_mul_pow2_m1) = a*b exactly with their result width, by induction over the recursion (every threshold, operands of different widths, zero padding, the subtraction never borrows); add_mul_pow2_m1 = a*b exactly with its width (column-loop invariant over add_sum_pow2_m1, anti-diagonal re-summation of the partial-product matrix). both squarers (add_square_pow2_m1: the AND triangle built by the nested loops, the square as a sum over anti-diagonals; add_square: induction over the recursive split x = a + 2^mid*b) = x^2 exactly on 2n bits. add_mul_wallace = a*b exactly (Proofs/GenWallace.lean: the matrix with placeholder strings stands for Σ 2^col·(non-placeholder bits); every round keeps that number modulo 2^(n+m) — per-cell accounting over groups of three rows, carries out of the top column dropped; the two remaining rows are read as numbers with the gap logic; every label a run draws is "new_…", hence different from the placeholder — a second semantics SemF carries this along the same path). The result widths of DEFAULT (c08_mul_default_width) and Wallace (c08_mul_wallace_width: a non-empty column stays non-empty through the rounds and ends in row 0; the final adder then returns >= n+m bits) are proved as well. What remains by correspondence only: that the generators return at all on valid arguments (the theorems are about every run that returns; the model fuel and the fresh-label loop are not shown sufficient).
 -/
 namespace Cirbo
 
@@ -192,7 +194,19 @@ theorem c08_mul_default_width {st st' : GSt} {x y out : List Label} {be : Bool}
   obtain ⟨n, hc, _⟩ := run_cost _ h
   exact cost_addMul_length hc hx hy
 
+/-- **the result width of `add_mul_wallace`**: `n + m` bits, `n + m − 1` when one operand has a single bit
+(on any host that has a valuation): a non-empty column of the matrix stays non-empty through every
+round, after the last round (always on three rows) its bit is in row 0, and the final shifted adder over
+the two rows then returns at least `n + m` bits, which are cut to `n + m` -/
+theorem c08_mul_wallace_width {st st' : GSt} {x y out : List Label} {be : Bool}
+    (h : (addMulWallace x y be).run st = .ok (out, st')) (hw : WFS st.c) {b v : Label → Bool} (hv : IsValB st.c b v)
+    (hx : 1 ≤ x.length) (hy : 1 ≤ y.length) :
+    out.length = if x.length = 1 ∨ y.length = 1 then x.length + y.length - 1 else x.length + y.length := by
+  obtain ⟨v', _, _, h3⟩ := run_totalF h hw hv
+  exact semF_addMulWallace_length (fun l ⟨n, hn⟩ => hn ▸ newLabel_ne_placeholder n) h3 hx hy
+
 #print axioms c08_mul_wallace
 #print axioms c08_mul_default_width
+#print axioms c08_mul_wallace_width
 
 end Cirbo
